@@ -27,12 +27,45 @@ type g struct {
 	rt   *rapid.T
 	hot  bool
 	warm *int // remaining invalid choices of a warm case (nil: not a warm case)
+	// skip: number of invalid choices a warm case still declines before it takes one. Without it the budget is gone
+	// within the first declaration (a unit visits some hundred sites in text order), and the stages behind the
+	// declaration check never see the one malformed spot in a rule.
+	skip *int
+	// focus: half of the warm cases take their invalid choices in one region of the text only: 1 inside type
+	// expressions of declarations, 2 inside rules (0: anywhere). phase says where the generator is.
+	focus int
+	phase *int
+}
+
+const (
+	phaseTypes = 1
+	phaseRules = 2
+)
+
+// in marks the region the generator is in until the returned function is called.
+func (x g) in(phase int) func() {
+	if x.phase == nil {
+		return func() {}
+	}
+	old := *x.phase
+	*x.phase = phase
+	return func() { *x.phase = old }
 }
 
 // bad is chance for a deliberately invalid choice.
 func (x g) bad(pct int) bool {
 	if x.warm != nil {
+		if x.focus != 0 && x.phase != nil && *x.phase != x.focus {
+			return false
+		}
+		if x.focus != 0 {
+			pct *= 2 // fewer sites to choose from
+		}
 		if *x.warm > 0 && x.chance(3*pct) {
+			if x.skip != nil && *x.skip > 0 {
+				*x.skip--
+				return false
+			}
 			*x.warm--
 			return true
 		}
@@ -69,7 +102,8 @@ var (
 	badNumbers   = []string{"9223372036854775808", "99999999999999999999999", "-9223372036854775809"}
 	floats       = []string{"1.5", "-0.0", "0.0", ".5", "1.0e10", "1.7976931348623157e308", "-3.25", "2.0", "1.0e-320"}
 	badFloats    = []string{"1.0e999", "-1.0e400"}
-	strs         = []string{`"a"`, `"b"`, `'c'`, "`d`", `""`, `"a\"b"`, `"\n\t"`, `"\x41"`, `"\u{1F600}"`, `"\u{0041}"`, `"k"`, `"+"`, `"-"`, `"?"`, `"2024-01-01T00:00:00Z"`, `"1h"`, "`multi\nline`", `"%s"`}
+	strs         = []string{`"a"`, `"b"`, `'c'`, "`d`", `""`, `"a\"b"`, `"\n\t"`, `"\x41"`, `"\u{0041}"`, `"k"`, `"+"`, `"-"`, `"?"`, `"2024-01-01T00:00:00Z"`, `"1h"`, "`multi\nline`", `"%s"`}
+	badStrs      = []string{`"\u{1F600}"`} // the lexer takes at most four hexadecimal digits
 	bstrs        = []string{`b"a"`, `b"\x00\xff"`, `b''`, "b`raw`"}
 	names        = []string{"/a", "/b", "/c", "/k", "/a/b", "/foo", "/foo/bar", "/foobar", "/foo-bar.x~%41", "/1", "/true", "/false"}
 	stamps       = []string{"2024-01-01", "2024-01-15T10:30:00", "2024-01-15T10:30:00Z", "2024-06-15", "2024-06-16", "2025-12-31", "1970-01-01", "0001-01-01", "9999-12-31"}
@@ -153,15 +187,18 @@ func (x g) constant(depth int) string {
 	case 2:
 		return x.pickv(floats, badFloats)
 	case 3, 4:
+		if x.bad(6) {
+			return x.pick(badStrs)
+		}
 		return x.pick(strs)
 	case 5:
 		return x.pick(bstrs)
 	case 6, 7:
 		return x.pick(names)
 	case 8:
-		return "[" + x.list(depth-1, 0, 3, func(d int) string { return x.constant(d) }) + "]"
+		return x.bracket(x.list(depth-1, 0, 3, func(d int) string { return x.constant(d) }))
 	case 9:
-		return "[" + x.list(depth-1, 0, 2, func(d int) string { return x.constant(d) + ": " + x.constant(d) }) + "]"
+		return x.bracket(x.list(depth-1, 0, 2, func(d int) string { return x.constant(d) + ": " + x.constant(d) }))
 	case 10:
 		return "{" + x.list(depth-1, 0, 2, func(d int) string { return x.pick(names) + ": " + x.constant(d) }) + "}"
 	case 11:
@@ -221,11 +258,17 @@ func (x g) term(depth int, vars []string) string {
 	default:
 		switch x.n(0, 3) {
 		case 0:
-			return "[" + x.list(depth-1, 0, 3, func(d int) string { return x.term(d, vars) }) + "]"
+			return x.bracket(x.list(depth-1, 0, 3, func(d int) string { return x.term(d, vars) }))
 		case 1:
 			return "{" + x.list(depth-1, 0, 2, func(d int) string { return x.pick(names) + ": " + x.term(d, vars) }) + "}"
 		case 2:
-			return "[" + x.list(depth-1, 1, 2, func(d int) string { return x.term(d, vars) + ": " + x.term(d, vars) }) + "]"
+			return x.bracket(x.list(depth-1, 1, 2, func(d int) string {
+				k := x.term(d, vars)
+				if k != "" && (k[0] >= 'A' && k[0] <= 'Z' || k[0] == '_') && !x.bad(20) {
+					k += " " // "[X:" is read as the name of a type
+				}
+				return k + ": " + x.term(d, vars)
+			}))
 		default:
 			return x.typeExpr(depth)
 		}
@@ -656,11 +699,24 @@ func (x g) base(target string) (string, string) {
 // genInput draws one input for the target.
 func genInput(rt *rapid.T, target string) ([]byte, []string) {
 	x := g{rt: rt}
-	x.hot = x.chance(40)
-	if x.hot && x.chance(55) {
+	x.hot = x.chance(46)
+	if x.hot && x.chance(60) {
 		// warm: otherwise built like a cold case, with a budget of one or two invalid choices (see bad)
-		budget := x.n(1, 2)
-		x.warm = &budget
+		budget := 1
+		if x.chance(35) {
+			budget = 2
+		}
+		skip := x.n(0, 12)
+		phase := 0
+		x.warm, x.skip, x.phase = &budget, &skip, &phase
+		switch k := x.n(0, 99); {
+		case k < 40:
+			x.focus = phaseTypes
+			skip = x.n(0, 3)
+		case k < 65:
+			x.focus = phaseRules
+			skip = x.n(0, 8)
+		}
 		x.hot = false
 	}
 	text, src := x.base(target)
